@@ -371,6 +371,19 @@ void build_world(World& W, Choices& c, Report& r)
       for (unsigned b = 0; b < nsinks; ++b) if (mask & (1u << b)) { L.sinks.push_back(static_cast<int>(b)); sv.push_back(W.sinks[b].user_ref); }
       if (!is_prop("C16")) L.pat = static_cast<int>(c.pick(3));
       char const* pat = is_prop("C16") ? "%(log_level)|%(log_level_short_code)|%(message)" : kLoggerPatterns[L.pat];
+      // C03: a third of the loggers beyond the first run on a user clock that is behind, equal to or ahead of the wall clock
+      if (is_prop("C03") && k >= 1 && k < 4 && c.pick(3) == 2)
+      {
+        static int64_t const kOff[] = {3600ll * 1000000000ll, -86400ll * 1000000000ll, 0, 1000ll * 86400ll * 1000000000ll};
+        g_user_clocks[k].offset_ns = kOff[c.pick(4)];
+        L.user_clock = true;
+        r.label("logger_on_user_clock");
+        if (g_user_clocks[k].offset_ns > 0) r.label("user_clock_ahead_of_wall_clock");
+        L.ptr = SFrontend::create_or_get_logger(L.name, std::move(sv),
+                                                quill::PatternFormatterOptions{pat, "%H:%M:%S.%Qns", quill::Timezone::GmtTime, false},
+                                                quill::ClockSourceType::User, &g_user_clocks[k]);
+      }
+      else
       L.ptr = SFrontend::create_or_get_logger(L.name, std::move(sv),
                                               quill::PatternFormatterOptions{pat, "%H:%M:%S.%Qns", quill::Timezone::GmtTime, false},
                                               quill::ClockSourceType::System);
@@ -388,7 +401,7 @@ void build_world(World& W, Choices& c, Report& r)
       << " tbuf=" << bo.transit_event_buffer_initial_capacity << " soft=" << bo.transit_events_soft_limit
       << " hard=" << bo.transit_events_hard_limit << " grace_us=" << bo.log_timestamp_ordering_grace_period.count()
       << " flush_ms=" << bo.sink_min_flush_interval.count() << " sinks=" << W.sinks.size() << " loggers=";
-  for (auto const& L : W.loggers) { cfg << "["; for (int s : L.sinks) cfg << s; cfg << "]"; if (is_prop("C16")) cfg << "@" << kLevelCodes[L.level]; else cfg << "p" << L.pat; }
+  for (auto const& L : W.loggers) { cfg << "["; for (int s : L.sinks) cfg << s; cfg << "]"; if (is_prop("C16")) cfg << "@" << kLevelCodes[L.level]; else cfg << "p" << L.pat; if (L.user_clock) cfg << "u"; }
   if (is_prop("C16"))
   {
     cfg << " sinkfilters=";
